@@ -58,13 +58,41 @@ def publish_before_ack(ctx, p):
                       'DbInner::commit always goes through commit_changes', cut_errors=False)
 
 
+def u64_arg_slices(b, site):
+    """backward slices of the u64-typed arguments of the call at `site` (record / commit ids are the only u64 arguments of the
+    overlay publication and cleaning functions)"""
+    res = []
+    for a in b.term(site)['a']:
+        pl = op_place(a)
+        if pl is not None and len(pl) == 1 and str(b.locals[pl[0]]) == 'u64':
+            res.append(backward_slice(b, [pl]))
+        elif pl is not None and len(pl) > 1:
+            sl = backward_slice(b, [pl])
+            if any(f.endswith('.id') for f in sl.fields):
+                res.append(sl)
+    return res
+
+
+def id_forwarded(F, helper, inner_pats):
+    """in a helper that wraps the overlay functions: every u64 argument it hands to them is one of its own parameters"""
+    hb = F.body(helper)
+    if hb is None:
+        return True
+    for s in lib.sites_reaching(hb, inner_pats):
+        for sl in u64_arg_slices(hb, s):
+            if not sl.params:
+                return False
+    return True
+
+
 def handover_order(ctx, p):
     F = ctx.F
     pc = ctx.body('db::DbInner::process_commits')
     if pc:
         er = pc.call_sites('log::Log::end_record')
-        cl = pc.call_sites(CLEAN_IDX, CLEAN_BT)
-        ctx.ob(p + 'a process_commits-anchors', 'anchor', pc.path, 'process_commits has one end_record call and two clean_overlay calls', len(er) == 1 and len(cl) == 2, 'end_record %s clean %s' % (er, cl))
+        # directly, or through a helper that cleans both kinds; the deferral branch (defer_commit) is judged on its own below
+        cl = [x for x in lib.sites_reaching(pc, [CLEAN_IDX, CLEAN_BT]) if not call_matches(pc.term(x), ['db::DbInner::defer_commit'])]
+        ctx.ob(p + 'a process_commits-anchors', 'anchor', pc.path, 'process_commits ends the record once and cleans the commit overlay afterwards', len(er) == 1 and len(cl) >= 1, 'end_record %s clean %s' % (er, cl))
         lib.precedes(ctx, p + 'b logged-before-overlay-cleaned', pc, er, cl,
                      'commit-overlay entries are removed only after Log::end_record published the record into the log overlay')
         for s in cl:
@@ -72,12 +100,17 @@ def handover_order(ctx, p):
         # the id handed to clean_overlay is the commit's id (not the log record id)
         bad = None
         for s in cl:
-            a = pc.term(s)['a'][2]
-            sl = backward_slice(pc, [op_place(a)]) if op_place(a) else None
-            if sl is None or '.Commit.id' not in sl.fields:
-                bad = 'clean_overlay at %s is given an id not derived from Commit.id (%s)' % (pc.loc(s), core.op_str(a))
-            elif any(n in ('log::LogWriter::<\'a>::record_id', 'log::Log::end_record', 'log::Log::begin_record') for n in sl.calls):
-                bad = 'clean_overlay at %s is given an id derived from the log record id' % pc.loc(s)
+            sls = u64_arg_slices(pc, s)
+            if not sls:
+                bad = 'clean_overlay at %s: no id argument found' % pc.loc(s)
+            for sl in sls:
+                if '.Commit.id' not in sl.fields:
+                    bad = 'clean_overlay at %s is given an id not derived from Commit.id' % pc.loc(s)
+                elif any(n in ('log::LogWriter::<\'a>::record_id', 'log::Log::end_record', 'log::Log::begin_record') for n in sl.calls):
+                    bad = 'clean_overlay at %s is given an id derived from the log record id' % pc.loc(s)
+            for n in core.call_names(pc.term(s)):
+                if F.body(n) is not None and n not in (CLEAN_IDX, CLEAN_BT) and not id_forwarded(F, n, [CLEAN_IDX, CLEAN_BT]):
+                    bad = 'helper %s does not forward the id it is given' % n
         ctx.ob(p + 'd clean-uses-commit-id', 'K4-provenance', pc.path,
                'clean_overlay is called with the id the entries were tagged with (Commit.id); log record ids come from a different counter', bad is None and bool(cl), bad or '')
     el = ctx.body('db::DbInner::enact_logs')
@@ -91,9 +124,9 @@ def handover_order(ctx, p):
         lib.precedes(ctx, p + 'g applied-before-end_read', el, st, er, 'end_read is reached only after the apply loop finished (last_enacted stored)')
     dc = ctx.body('db::DbInner::defer_commit')
     if dc:
-        cp = dc.call_sites(COPY_IDX, COPY_BT)
-        cl = dc.call_sites(CLEAN_IDX, CLEAN_BT)
-        ctx.ob(p + 'h defer_commit-anchors', 'anchor', dc.path, 'defer_commit re-copies (2 calls) and cleans (2 calls)', len(cp) == 2 and len(cl) == 2, '%s %s' % (cp, cl))
+        cp = lib.sites_reaching(dc, [COPY_IDX, COPY_BT])
+        cl = lib.sites_reaching(dc, [CLEAN_IDX, CLEAN_BT])
+        ctx.ob(p + 'h defer_commit-anchors', 'anchor', dc.path, 'defer_commit re-copies and cleans', len(cp) >= 1 and len(cl) >= 1, '%s %s' % (cp, cl))
         lib.flush_loop_precedes(ctx, p + 'i retag-before-untag (hash)', dc, '.CommitChangeSet.indexed', [COPY_IDX], cl,
                                 'all hash-column entries are re-published under the new id (complete loop) before any entry of the old id is cleaned')
         lib.flush_loop_precedes(ctx, p + 'i retag-before-untag (btree)', dc, '.CommitChangeSet.btree_indexed', [COPY_BT], cl,
@@ -101,10 +134,12 @@ def handover_order(ctx, p):
         lib.never_after(ctx, p + 'j no-copy-after-clean', dc, cl, cp, 'no re-publication after the clean in defer_commit')
         bad = None
         for s in cl:
-            a = dc.term(s)['a'][2]
-            sl = backward_slice(dc, [op_place(a)]) if op_place(a) else None
-            if sl is None or 5 not in sl.params:
+            sls = u64_arg_slices(dc, s)
+            if not sls or any(5 not in sl.params for sl in sls):
                 bad = 'clean_overlay at %s is not given the old_id parameter' % dc.loc(s)
+            for n in core.call_names(dc.term(s)):
+                if F.body(n) is not None and n not in (CLEAN_IDX, CLEAN_BT) and not id_forwarded(F, n, [CLEAN_IDX, CLEAN_BT]):
+                    bad = 'helper %s does not forward the id it is given' % n
         ctx.ob(p + 'k defer-clean-uses-old-id', 'K4-provenance', dc.path, 'defer_commit cleans with old_id', bad is None, bad or '')
 
 
@@ -296,14 +331,14 @@ def atomic_publication(ctx, p):
     F = ctx.F
     cr = ctx.body('db::DbInner::commit_raw')
     if cr:
-        sites = cr.call_sites(COPY_IDX, COPY_BT) + queue_push_sites(cr)
+        sites = lib.sites_reaching(cr, [COPY_IDX, COPY_BT]) + queue_push_sites(cr)
         lib.same_guard_at(ctx, p + 'a one-overlay-guard-over-publication', cr, sites, '.DbInner.commit_overlay',
                           'a single commit_overlay write guard is held across every copy_to_overlay call and the queue push (a transaction becomes visible as a unit)', mode='write')
         lib.same_guard_at(ctx, p + 'b queue-mutex-over-publication', cr, sites, '.DbInner.commit_queue',
                           'the commit-queue mutex is held across publication and queueing (ids and queue order agree)')
     dc = ctx.body('db::DbInner::defer_commit')
     if dc:
-        sites = dc.call_sites(COPY_IDX, COPY_BT, CLEAN_IDX, CLEAN_BT)
+        sites = lib.sites_reaching(dc, [COPY_IDX, COPY_BT, CLEAN_IDX, CLEAN_BT])
         lib.same_guard_at(ctx, p + 'c one-guard-over-retag', dc, sites, '.DbInner.commit_overlay',
                           'defer_commit re-tags and cleans under one commit_overlay write guard', mode='write')
     er = ctx.body('log::Log::end_record')
@@ -658,3 +693,60 @@ def drop_table_idempotent(ctx, p):
                             ok = True
             ctx.ob(p + 'b drop-decided-by-table-id %s #%s' % (fn, 'dequeue' if s in pops else 'unlink'), 'K3-guard', fn,
                    'the table is dequeued / unlinked only when the id of the queue front equals the id named by the log record (replay of a DropTable whose table is already gone is a no-op)', ok, det, b.loc(s))
+
+
+def index_insert_retried(ctx, p):
+    """IndexTable/RefCountTable::write_insert_plan inserts nothing when it answers NeedReindex (chunk full / address too large).
+    Every call that can be a fresh insert (position argument not a literal Some) therefore either sits in a retry loop that
+    grows the index (trigger_reindex), or inspects the outcome and returns to a caller that does."""
+    F = ctx.F
+    n = 0
+    for callee, grow in (('index::IndexTable::write_insert_plan', 're:HashColumn::trigger_reindex$'), ('ref_count::RefCountTable::write_insert_plan', 're:HashColumn::trigger_ref_count_reindex$')):
+        for b in sorted(F.bodies.values(), key=lambda x: x.path):
+            if '::test' in b.path or '::tests::' in b.path:
+                continue
+            for s in b.call_sites(callee):
+                if s not in b.normal_blocks():
+                    continue
+                t = b.term(s)
+                pos = t['a'][3] if len(t['a']) > 3 else None
+                always_some = False
+                if pos is not None and op_place(pos) is not None:
+                    ds = [d for d in b.defs().get(op_place(pos)[0], []) if d[2] == 'assign']
+                    always_some = bool(ds) and all(d[3]['r']['k'] == 'agg' and d[3]['r']['ak'] == 'Adt:std::option::Option::Some' for d in ds)
+                if always_some:
+                    continue
+                n += 1
+                gs = b.call_sites(grow)
+                in_retry_loop = any(g in b.reaches(s) and s in b.reaches(g) for g in gs)
+                lifted = False
+                why = 'not in a retry loop with the index-growing call, and no caller retries'
+                if not in_retry_loop:
+                    # the outcome is looked at here (not just passed on) ...
+                    res = {t['d'][0]}
+                    for bi in b.normal_blocks():
+                        tm = b.term(bi)
+                        if tm['k'] == 'call' and call_matches(tm, ['std::ops::Try::branch']) and tm['a'] and op_local(tm['a'][0]) in res:
+                            res.add(tm['d'][0])
+                        for st in b.blocks[bi]['s']:
+                            if st['k'] == 'assign' and st['r']['k'] == 'use' and op_place(st['r']['a'][0]) is not None and op_place(st['r']['a'][0])[0] in res and len(st['p']) == 1:
+                                res.add(st['p'][0])
+                    inspected = any(st['k'] == 'assign' and st['r']['k'] == 'discr' and st['r']['p'][0] in res and 'PlanOutcome' in str(b.locals[st['r']['p'][0]])
+                                    for bi in b.normal_blocks() for st in b.blocks[bi]['s'])
+                    # ... and every caller grows the index after the call and inserts again
+                    callers = [F.body(c) for c in F.callers(b.path) if F.body(c) is not None]
+                    ok_callers = bool(callers)
+                    for cb in callers:
+                        for cs in cb.call_sites(b.path):
+                            g2 = [g for g in cb.call_sites(grow) if g in cb.reaches(cs)]
+                            again = [x for x in cb.call_sites(callee) if any(x in cb.reaches(g) for g in g2)]
+                            if not (g2 and again):
+                                ok_callers = False
+                                why = 'caller %s does not grow the index and insert again after the call' % cb.path
+                    if not inspected:
+                        why = 'the outcome of the insert is passed on without being looked at'
+                    lifted = inspected and ok_callers
+                ctx.ob(p + 'a need-reindex-retried %s' % b.path, 'K9-agreement', b.path,
+                       'a fresh index insert that answers NeedReindex (nothing was inserted) is repeated after growing the index - in a retry loop at the call, or by the caller',
+                       in_retry_loop or lifted, why, b.loc(s))
+    ctx.ob(p + 'b fresh-insert-sites', 'anchor', '-', 'at least five fresh-insert call sites exist (new key, reindex batch, moved value; ref-count new, ref-count reindex)', n >= 5, 'found %d' % n)
